@@ -10,16 +10,19 @@ SPEC = dict(
                "after the history must match a freshly loaded database with the same entries (stale re-ranker / pointer index). A quarter of the histories "
                "run on a database built at run time from plain entries (never through the loader) whose next list is derived from the entries being searched: "
                "copies reworded, entries edited in place and handed over again, reworded duplicates appended. One database in 24 holds an entry that repeats "
-               "one word 40,000-131,075 times in one field.",
+               "one word 40,000-70,000 times in one field; one history in five plants pairs of words that collide under a common 32-bit hash (FNV-1a, FNV-1, "
+               "CRC-32, Adler-32, djb2), one in an entry, the other in the query; a step reloads the same entries twice, the second time with words re-filed "
+               "between their fields (keyword to tag, two keywords joined, word moved from command to description), and after every replacement the commands "
+               "held must be the ones handed over.",
     level_note="Trusted: the reference tokenizer (ASCII alphanumeric runs, lower-cased, <2 bytes and nlp.StopWords() dropped) and BM25F formula; "
                "k1/w/b/minIDF are read through the verif hook so re-tuning is followed. Only generated inputs/histories are decided.",
     engines=[dict(name="indexscan", shards=T(16, 16), timeout=T(900, 3600))],
     rule="case = (history of load/merge/replace/append operations, query, options) checked against the reference scan of the current command list; "
          "non-trivial = at least one entry returned and compared; distinct by (history, query, options). Twin cases: same, NLP on, compared with a fresh load.",
     floors=T({"exact-mode": 1500, "sandwich-mode": 50, "after:UpdateDatabase": 100, "after:append": 100, "after:LoadDatabaseWithMonitoring": 50,
-              "after:load-shipped": 20, "distinct_nontrivial": 1500, "histories-on-run-time-built-databases": 80, "steps-deriving-the-next-list-from-the-current-entries": 150, "entries-with-a-word-repeated-around-65536-times": 10},
+              "after:load-shipped": 20, "distinct_nontrivial": 1500, "histories-on-run-time-built-databases": 80, "steps-deriving-the-next-list-from-the-current-entries": 150, "entries-with-a-word-repeated-around-65536-times": 10, "histories-with-hash-colliding-words": 60, "steps-refiling-words-between-fields": 60, "replacements-checked-for-adoption": 200},
              {"exact-mode": 15000, "sandwich-mode": 500, "after:UpdateDatabase": 1000, "after:append": 1000, "after:LoadDatabaseWithMonitoring": 500,
-              "after:load-shipped": 200, "distinct_nontrivial": 15000, "histories-on-run-time-built-databases": 4000, "steps-deriving-the-next-list-from-the-current-entries": 7000, "entries-with-a-word-repeated-around-65536-times": 500}),
+              "after:load-shipped": 200, "distinct_nontrivial": 15000, "histories-on-run-time-built-databases": 4000, "steps-deriving-the-next-list-from-the-current-entries": 7000, "entries-with-a-word-repeated-around-65536-times": 500, "histories-with-hash-colliding-words": 3000, "steps-refiling-words-between-fields": 3000, "replacements-checked-for-adoption": 10000}),
     assumptions=[
         "replacement command lists are taken from a loaded database (lower-case caches populated), as the CLI would pass them",
         "eligibility under platform filtering is asserted only for unambiguous entries (no platform / host platform named exactly / definitely foreign)",
